@@ -154,7 +154,7 @@ def run_fsplit(case, stt):
 # -- 3. perturbations must be refused ----------------------------------------------------------------------------
 
 TIME_PERT = ["shift_start", "swap", "overlap", "gap", "rate", "chan_bw", "center_freq", "class", "twice", "start_missing_ok", "rate_unit",
-             "chan_bw_unit", "rate_equiv_ok"]
+             "chan_bw_unit", "rate_equiv_ok", "scale_equiv_ok", "scale_reading", "align_flip", "align_equiv_ok"]
 
 
 def other_unit(qq, same_number):
@@ -169,7 +169,7 @@ OTHER_PERT = ["o_start", "o_labels", "o_rate"]
 @st.composite
 def pert_case(draw):
     kind = draw(st.sampled_from(TIME_PERT + FREQ_PERT + OTHER_PERT))
-    radio_needed = kind in ("chan_bw", "center_freq", "chan_bw_unit") or kind in FREQ_PERT or kind == "o_labels"
+    radio_needed = kind in ("chan_bw", "center_freq", "chan_bw_unit", "align_flip", "align_equiv_ok") or kind in FREQ_PERT or kind == "o_labels"
     classes = G.RADIO if radio_needed else G.CLASSES
     if kind in ("chan_bw", "chan_bw_unit"):
         classes = ["RadioSignal", "IntensitySignal", "FullStokesSignal"]
@@ -177,6 +177,9 @@ def pert_case(draw):
     spec = draw(G.signal_spec(classes=classes, nmin=4, nmax=40, nchan_max=9, max_trailing=mt, start="some", sr=G.freq_q(0, 9.6)))
     if kind in FREQ_PERT and spec["sshape"][0] < 4:
         spec["sshape"][0] = draw(st.integers(4, 9))
+    if kind in ("align_flip", "align_equiv_ok"):
+        spec["sshape"][0] = draw(st.sampled_from([2, 4, 6, 8]))  # alignment only matters for an even channel count
+        spec["align"] = draw(st.sampled_from(["bottom", "top"]))
     if kind in OTHER_PERT:
         # need a trailing axis to join along: force one
         cls = spec["cls"]
@@ -253,6 +256,27 @@ def run_pert(case, stt):
             good, bad = [p0, q], None
         else:
             good, bad = [p0, p1], None  # (conversion not exact in doubles)
+    elif kind == "scale_equiv_ok":
+        # the same instant written in another time scale is the same instant
+        other = "tai" if p1.start_time.scale != "tai" else "utc"
+        good, bad = [p0, type(p1).like(p1, start_time=getattr(p1.start_time, other))], None
+    elif kind == "scale_reading":
+        # the same calendar READING in another time scale is another instant (tens of seconds away)
+        from astropy.time import Time as _T
+
+        t = p1.start_time
+        other = "tai" if t.scale != "tai" else "utc"
+        bad = [p0, type(p1).like(p1, start_time=_T(t.jd1, t.jd2, format="jd", scale=other))]
+    elif kind == "align_flip":
+        # even channel count, same centre frequency, 'bottom' against 'top': every label is one channel off
+        flip = "top" if p1.freq_align == "bottom" else "bottom"
+        bad = [p0, perturbed(p1, via, freq_align=flip)]
+    elif kind == "align_equiv_ok":
+        # ... and the same labels written with the other alignment (centre moved by one channel) are the same band
+        flip, sgn = ("top", -1) if p1.freq_align == "bottom" else ("bottom", 1)
+        q = type(p1).like(p1, freq_align=flip, center_freq=p1.center_freq + sgn * p1.chan_bw)
+        same = all(abs(a - b) <= abs(O.hz(p1.chan_bw)) * F(1, 10**9) for a, b in zip(O.hz_arr(q.channel_freqs), O.hz_arr(p1.channel_freqs)))
+        good, bad = ([p0, q] if same else [p0, p1]), None
     elif kind == "chan_bw":
         bad = [p0, perturbed(p1, via, chan_bw=p1.chan_bw * 2)]
     elif kind == "center_freq":
